@@ -11,6 +11,7 @@ import (
 	"go/token"
 	"go/types"
 	"sort"
+	"strconv"
 	"strings"
 
 	"golang.org/x/tools/go/ssa"
@@ -133,7 +134,16 @@ func (c *caseRule) ValueOf(x *Explorer, fr *Frame, v ssa.Value) AV {
 	return Unknown
 }
 
+// the explorer and frame of the instruction a commit predicate is being asked about (commit predicates that need to
+// resolve an operand through the call frames — e.g. a status handed to a helper as a parameter — read them)
+var (
+	commitX  *Explorer
+	commitFr *Frame
+)
+
 func (c *caseRule) OnInstr(x *Explorer, fr *Frame, in ssa.Instruction, st uint64) uint64 {
+	commitX, commitFr = x, fr
+	defer func() { commitX, commitFr = nil, nil }()
 	if e := c.w.EffectOf(in); e != nil && c.commit(e, in) {
 		c.reached[in] = true
 	}
@@ -224,6 +234,12 @@ func pairOf(a, b func(t *Term) bool) func(x *Explorer, fr *Frame, l, r *Term) in
 // (a collections call on that field, or a repository helper whose call tree reads it).
 func fromColl(t *Term, coll string) bool {
 	return t.Any(func(x *Term) bool {
+		if x.Op == "param" && theWorld != nil {
+			// the value handed to a callback of a walk over the collection
+			if p, ok := x.V.(*ssa.Parameter); ok && theWorld.walkValueParamOf(p) == coll {
+				return true
+			}
+		}
 		if x.Op != "call" {
 			return false
 		}
@@ -240,6 +256,63 @@ func fromColl(t *Term, coll string) bool {
 }
 
 var theWorld *World
+var walkParamMemo = map[*ssa.Parameter]string{}
+
+// walkValueParamOf: p is the last parameter of a closure passed as callback to a read (Walk, Iterate…) of a keeper
+// collection, directly or through a wrapper that hands its callback parameter on; returns the collection's name.
+func (w *World) walkValueParamOf(p *ssa.Parameter) string {
+	if v, ok := walkParamMemo[p]; ok {
+		return v
+	}
+	walkParamMemo[p] = ""
+	cb := p.Parent()
+	if cb == nil || cb.Parent() == nil || len(cb.Params) == 0 || cb.Params[len(cb.Params)-1] != p {
+		return ""
+	}
+	for _, b := range cb.Parent().Blocks {
+		for _, in := range b.Instrs {
+			c, ok := in.(ssa.CallInstruction)
+			if !ok {
+				continue
+			}
+			passes := false
+			for _, a := range c.Common().Args {
+				if mc, ok := a.(*ssa.MakeClosure); ok && mc.Fn == cb {
+					passes = true
+				}
+			}
+			if !passes {
+				continue
+			}
+			if e := w.EffectOf(in); e != nil && e.Kind == EffStoreRead {
+				walkParamMemo[p] = e.Coll
+				return e.Coll
+			}
+			// a wrapper that walks one collection with the callback it is given
+			if callee := w.calleeBody(c.Common()); callee != nil {
+				for _, cb2 := range callee.Blocks {
+					for _, in2 := range cb2.Instrs {
+						if e := w.EffectOf(in2); e != nil && e.Kind == EffStoreRead {
+							for _, a := range in2.(ssa.CallInstruction).Common().Args {
+								if _, isParam := a.(*ssa.Parameter); isParam && isFuncType(a.Type()) {
+									walkParamMemo[p] = e.Coll
+									return e.Coll
+								}
+							}
+						}
+					}
+				}
+			}
+		}
+	}
+	return ""
+}
+
+func isFuncType(t types.Type) bool {
+	_, ok := t.Underlying().(*types.Signature)
+	return ok
+}
+
 var readsCollMemo = map[string]bool{}
 
 // readsColl: fn's call tree contains a store read of the collection.
@@ -268,16 +341,16 @@ func fieldOfParam(t *Term, name string) bool {
 		if a.Op == "const" {
 			continue
 		}
-		if !(isField(a, name) && a.Args[0].Op == "param") {
+		if !(isField(a, name) && uncell(a.Args[0]).Op == "param") {
 			return false
 		}
 	}
-	return t.Any(func(x *Term) bool { return isField(x, name) && x.Args[0].Op == "param" })
+	return t.Any(func(x *Term) bool { return isField(x, name) && uncell(x.Args[0]).Op == "param" })
 }
 
 // containsFieldOfParam: some sub-term is field<name>(param).
 func containsFieldOfParam(t *Term, name string) bool {
-	return t.Any(func(x *Term) bool { return isField(x, name) && x.Args[0].Op == "param" })
+	return t.Any(func(x *Term) bool { return isField(x, name) && uncell(x.Args[0]).Op == "param" })
 }
 
 // storedField: field<name> of a record read from collection coll (and nothing of the message).
@@ -305,3 +378,90 @@ func commitStore(coll string) func(e *Effect, in ssa.Instruction) bool {
 
 // three-way orderings
 var ordNames = map[int]string{-1: "<", 0: "=", 1: ">"}
+
+// linearForm: t as Σ coef·symbol + c over integer +/−, where a symbol is len(x) ("len:"+key of x) or any other term
+// (its key). ok=false if t contains an integer operation other than + and −.
+func linearForm(t *Term) (coef map[string]int64, c int64, ok bool) {
+	coef = map[string]int64{}
+	var rec func(t *Term, sign int64) bool
+	rec = func(t *Term, sign int64) bool {
+		t = uncell(t)
+		switch {
+		case t.Op == "const":
+			n, err := strconv.ParseInt(t.Name, 10, 64)
+			if err != nil {
+				return false
+			}
+			c += sign * n
+			return true
+		case t.Op == "binop" && t.Name == "+" && len(t.Args) == 2 && t.Args[1].Key() == "const<1>" && t.Args[0].Op == "phi" &&
+			t.Args[0].Any(func(x *Term) bool { return x.Key() == "const<-1>" }):
+			// the index of a range loop (SSA: phi(-1, next) + 1) is one symbol
+			coef[t.Key()] += sign
+			return true
+		case t.Op == "binop" && (t.Name == "+" || t.Name == "-") && len(t.Args) == 2:
+			if !rec(t.Args[0], sign) {
+				return false
+			}
+			if t.Name == "-" {
+				return rec(t.Args[1], -sign)
+			}
+			return rec(t.Args[1], sign)
+		case t.Op == "builtin" && t.Name == "len" && len(t.Args) == 1:
+			coef["len:"+uncell(t.Args[0]).Key()] += sign
+			return true
+		case t.Op == "binop":
+			return false
+		}
+		coef[t.Key()] += sign
+		return true
+	}
+	ok = rec(t, 1)
+	for k, v := range coef {
+		if v == 0 {
+			delete(coef, k)
+		}
+	}
+	return
+}
+
+// lastIndexPair matches a comparison of an index with the last index of a list, however it is spelled
+// (i == len(l)-1, i+1 == len(l), len(l)-1 == i, i == last with last := len(l)-1): +1 when l − r = i − (len−1),
+// −1 when it is the negation, 0 otherwise.
+func lastIndexPair(x *Explorer, fr *Frame, l, r *Term) int {
+	lc, lk, ok1 := linearForm(l)
+	rc, rk, ok2 := linearForm(r)
+	if !ok1 || !ok2 {
+		return 0
+	}
+	d := map[string]int64{}
+	for k, v := range lc {
+		d[k] += v
+	}
+	for k, v := range rc {
+		d[k] -= v
+	}
+	c := lk - rk
+	var lenCoef, idxCoef int64
+	nLen, nIdx := 0, 0
+	for k, v := range d {
+		if v == 0 {
+			continue
+		}
+		if strings.HasPrefix(k, "len:") {
+			lenCoef, nLen = v, nLen+1
+		} else {
+			idxCoef, nIdx = v, nIdx+1
+		}
+	}
+	if nLen != 1 || nIdx != 1 {
+		return 0
+	}
+	switch {
+	case idxCoef == 1 && lenCoef == -1 && c == 1:
+		return 1
+	case idxCoef == -1 && lenCoef == 1 && c == -1:
+		return -1
+	}
+	return 0
+}
